@@ -91,6 +91,12 @@ macro_rules! approx_arm {
 }
 
 #[macro_export]
+macro_rules! approx_val_arm {
+    (ord, $e:expr) => { $e };
+    (noord, $e:expr) => { Out::Unsupported };
+}
+
+#[macro_export]
 macro_rules! bessel_arm {
     (bes, $x:expr, $f:ident) => { Out::Val(num_dual::BesselDual::$f($x.clone())) };
     (nobes, $x:expr, $f:ident) => { Out::Unsupported };
@@ -265,6 +271,9 @@ macro_rules! impl_calc {
                     ("abs_diff_eq", _) => $crate::approx_arm!($ord, approx::AbsDiffEq::abs_diff_eq(a, b, c.clone())),
                     ("relative_eq", _) => $crate::approx_arm!($ord, approx::RelativeEq::relative_eq(a, b, c.clone(), c.clone())),
                     ("ulps_eq", _) => $crate::approx_arm!($ord, approx::UlpsEq::ulps_eq(a, b, c.clone(), 4)),
+                    ("default_epsilon", _) => $crate::approx_val_arm!($ord, Out::Val(<D as approx::AbsDiffEq>::default_epsilon())),
+                    ("default_max_relative", _) => $crate::approx_val_arm!($ord, Out::Val(<D as approx::RelativeEq>::default_max_relative())),
+                    ("default_max_ulps", _) => $crate::approx_val_arm!($ord, Out::Re(<D as approx::UlpsEq>::default_max_ulps() as f64)),
                     _ => Out::Unsupported,
                 };
                 Ok(r)
